@@ -345,6 +345,7 @@ def dispatchC12 : Dispatch := fun W op args =>
         let b := log2BoundsPrim v
         f32Hex b.1 ++ ":" ++ f32Hex b.2 ++ enclosureMark b.1 b.2 v 1
     pure ("ok " ++ ",".intercalate ((List.range (hi - lo)).map fun i => item (lo + i)))
+  | "tab.log2", [_] => pure ("ok " ++ natToHex LOG2_TAB_PACKED)
   | "p.gcdrow", [ty, a, lo, hi] => do
     let _ ← primBits ty; let a ← parseDecNat a; let lo ← parseDecNat lo; let hi ← parseDecNat hi
     let item (v : Nat) : String :=
